@@ -71,7 +71,7 @@ def check(rep, model, tier):
         # inverted-flank comparator: guard of the crossing call must contain not(first OP last)
         first, last = T.index(window, C(0)), T.index(window, C(-1))
         want = T.cmp_('Gt', first, last) if fl == 'rise' else T.cmp_('Lt', first, last)
-        guards = set(T.walk(fz[0]['guard'])) if fz else set()
+        guards = established(fz[0]) if fz else set()
         if T.not_(want) in guards or ('not', want) in guards:
             rep.ok('INVERT-TABLE', fl, site, found=T.show(want) + ' -> temporal centre')
         else:
@@ -90,6 +90,20 @@ def check(rep, model, tier):
             spec, _ = E.spec('crossings', {'x': ('param', 'x'), 'flank': C(fl), 'level': mp})
             rep.compare('CROSSING', f'{fl}:level={mn}', f'{h.path}:{h.node.lineno} find_flank_zerox', impl, spec, ctx.unmodelled)
     rep.floor('rule instances', len(rep.instances), 12)
+
+
+def established(ev):
+    """conditions known to hold when the event happens: its branch guard and the guards passed by early returns, with not(a or b) split"""
+    out = set()
+    work = [ev['guard']] + list(ev.get('perm', ()))
+    while work:
+        c = work.pop()
+        out.add(c)
+        if c[0] == 'and':
+            work.extend(c[1])
+        elif c[0] == 'not' and c[1][0] == 'or':
+            work.extend(T.not_(x) for x in c[1][1])
+    return out
 
 
 def leaves(t):
